@@ -89,7 +89,12 @@ def run_impl(case):
         with warnings.catch_warnings(), np.errstate(all="ignore"):
             warnings.simplefilter("ignore")
             obj = build(case)
-            th = np.array(case["theta"], dtype=float)
+            # history dimension: the same parameter array is first used at another point (value and
+            # gradient), then updated in place (as an optimiser or sampler does) and used again
+            th = np.array(case["theta"], dtype=float) + 0.125
+            obj(th)
+            obj.gradient(th)
+            th[:] = np.array(case["theta"], dtype=float)
             val = obj(th)
             grad = np.asarray(obj.gradient(th), dtype=float)
             cst = obj.cost(th)
